@@ -14,6 +14,7 @@ inductive Op
   | get (i : Nat)
   | has (i : Nat)
   | info
+  | makeReadOnly
 
 inductive Obs
   | appended (length byteLength : Nat)
@@ -23,11 +24,14 @@ inductive Obs
   | info (length byteLength contiguous : Nat) (writable : Bool)
   | failed (f : Fail)
   | reopened
+  | readOnly (changed : Bool)
 
 /-- the abstract log -/
 structure Abs where
   blocks : Array Bytes := #[]
   held : Nat → Bool := fun _ => false
+  /-- the core holds the secret key (`make_read_only` drops it for good) -/
+  writable : Bool := true
 
 def totalBytes (bs : Array Bytes) : Nat := (bs.toList.map List.length).sum
 
@@ -38,18 +42,19 @@ def firstMissing (held : Nat → Bool) : Nat → Nat → Nat
 
 def Abs.step (a : Abs) : Op → Abs × Obs
   | .append batch =>
-    if batch.isEmpty then (a, .appended a.blocks.size (totalBytes a.blocks))
+    if a.writable = false then (a, .failed .err)
+    else if batch.isEmpty then (a, .appended a.blocks.size (totalBytes a.blocks))
     else
       let n := a.blocks.size
-      let a' : Abs := { blocks := a.blocks ++ batch.toArray,
-                        held := fun i => a.held i || (decide (n ≤ i) && decide (i < n + batch.length)) }
+      let a' : Abs := { a with blocks := a.blocks ++ batch.toArray, held := fun i => a.held i || (decide (n ≤ i) && decide (i < n + batch.length)) }
       (a', .appended a'.blocks.size (totalBytes a'.blocks))
   | .clear s e =>
     if s ≥ e then (a, .cleared)
     else ({ a with held := fun i => a.held i && !(decide (s ≤ i) && decide (i < e)) }, .cleared)
   | .get i => (a, .block (if a.held i then some (a.blocks.getD i []) else none))
   | .has i => (a, .has (a.held i))
-  | .info => (a, .info a.blocks.size (totalBytes a.blocks) (firstMissing a.held a.blocks.size 0) true)
+  | .info => (a, .info a.blocks.size (totalBytes a.blocks) (firstMissing a.held a.blocks.size 0) a.writable)
+  | .makeReadOnly => if a.writable then ({ a with writable := false }, .readOnly true) else (a, .readOnly false)
 
 def obsOf {α : Type} (r : R α) (f : α → Obs) : Obs :=
   match r with
@@ -69,6 +74,9 @@ def stepC (C : Crypto) (s : Core × Disk) : Op → (Core × Disk) × Obs
     ((st.core, s.2.applyAll st.journal), obsOf st.result fun b => .block b)
   | .has i => (s, .has (s.1.has i))
   | .info => (s, .info s.1.info.length s.1.info.byteLength s.1.info.contiguous s.1.info.writeable)
+  | .makeReadOnly =>
+    let st := s.1.makeReadOnly
+    ((st.core, s.2.applyAll st.journal), obsOf st.result fun b => .readOnly b)
 
 /-- the storage operations of one API call, in the order they are issued -/
 def journalC (C : Crypto) (s : Core × Disk) : Op → List SOp
@@ -77,6 +85,7 @@ def journalC (C : Crypto) (s : Core × Disk) : Op → List SOp
   | .get i => (s.1.getBlock s.2 i).journal
   | .has _ => []
   | .info => []
+  | .makeReadOnly => s.1.makeReadOnly.journal
 
 /-- the stores if the process dies after the first `k` storage operations of the call -/
 def crashDisk (C : Crypto) (s : Core × Disk) (op : Op) (k : Nat) : Disk := s.2.applyAll ((journalC C s op).take k)
